@@ -78,6 +78,9 @@ func TestWorker(t *testing.T) {
 		seed := runSeed(base, prop, worker, i)
 		tr, g := NewRun(prop, seed, tier)
 		res := Execute(t, tr, g, prop, bubble)
+		if prop == "C01" && len(res.Violations) == 0 && (tier == "thorough" && i%3 == 0 || tier != "thorough" && i%8 == 0) {
+			applyTwin(res, tr)
+		}
 		if i < 2 || len(res.Violations) > 0 {
 			res.Sample = sampleOf(res.Trace)
 		}
@@ -135,6 +138,38 @@ func sampleOf(tr *Trace) string {
 	return sb.String()
 }
 
+// applyTwin runs the out-of-process twin for a finished C01 run and books its verdict.
+func applyTwin(res *RunResult, tr *Trace) {
+	msg, ran := RunTwin(res)
+	if !ran {
+		if msg != "" {
+			res.Twin = "not-run: " + msg
+		}
+		return
+	}
+	if res.Faults == nil {
+		res.Faults = map[string]int{}
+	}
+	res.Faults["node.out_of_process_twin"]++
+	res.Twin = "ok"
+	if msg != "" {
+		res.Twin = msg
+		if !tr.HasFlag("twin") {
+			tr.Flags = append(tr.Flags, "twin")
+		}
+		res.Violations = append(res.Violations, Violation{Property: "C01", Class: "C01/out-of-process-twin-differs", Detail: msg, Block: len(tr.Blocks) - 1, Tx: -1})
+	}
+}
+
+// TestTwin is the child side of the out-of-process twin.
+func TestTwin(t *testing.T) {
+	path := os.Getenv("SIM_TWIN")
+	if path == "" {
+		t.Skip()
+	}
+	twinMain(path, os.Getenv("SIM_TWIN_DIR"))
+}
+
 // TestReplay re-executes a replay file and prints the violation classes it reaches.
 func TestReplay(t *testing.T) {
 	path := os.Getenv("SIM_REPLAY")
@@ -150,6 +185,9 @@ func TestReplay(t *testing.T) {
 		prop = p
 	}
 	res := Execute(t, tr, nil, prop, os.Getenv("SIM_NOBUBBLE") == "")
+	if prop == "C01" && tr.HasFlag("twin") && len(res.Violations) == 0 {
+		applyTwin(res, tr)
+	}
 	classes := []string{}
 	for _, v := range res.Violations {
 		classes = append(classes, v.Class)
